@@ -15,13 +15,16 @@ type critPanic string
 // debugLog (VERIF_LOG=1) prints warnings and errors of the code under test to stderr (debugging aid).
 var debugLog = os.Getenv("VERIF_LOG") != ""
 
+// debugAll (VERIF_LOG=2) prints every level.
+var debugAll = os.Getenv("VERIF_LOG") == "2"
+
 // InstallLogTrap discards all log output and turns logging.Crit into a panic.
 func InstallLogTrap() {
 	logging.Root().SetHandler(logging.FuncHandler(func(r *logging.Record) error {
 		if r.Lvl == logging.LvlCrit {
 			panic(critPanic(fmt.Sprintf("%s %v", r.Msg, r.Ctx)))
 		}
-		if debugLog && r.Lvl <= logging.LvlWarn {
+		if debugLog && (debugAll || r.Lvl <= logging.LvlWarn) {
 			fmt.Fprintf(os.Stderr, "LOG[%v] %s %v\n", r.Lvl, r.Msg, r.Ctx)
 		}
 		return nil
